@@ -24,7 +24,7 @@ LEVEL_NOTE = "Trusts rustc HIR/MIR, std HashMap / indexmap semantics."
 TECHNIQUE = "static analysis: path tables and structural guards over resolved HIR, MIR panic inventory restricted to the allocator"
 
 CSL = 'io_loop::channel_slots::ChannelSlots::'
-UNAVAIL = 'errors::UnavailableChannelIdSnafu::fail(errors::UnavailableChannelIdSnafu{channel_id: channel_id.Some.0})'
+UNAVAIL = 'Err(errors::Error::UnavailableChannelId{channel_id: channel_id.Some.0})'
 
 
 def reuse(ctx, r):
@@ -76,7 +76,7 @@ def run(ctx):
                 expected='an occupied id is skipped (continue), never overwritten')
         r.check('counter:vacant-inserts', len(cv) == 1 and 'value:make_entry($s0)' in cv[0].effects and cv[0].done == 'return' and cv[0].value_str() == 'Ok(value:make_entry($s0)?.1)',
                 site, built=[x.row() for x in cv])
-        POP = '<std::option::Option<T> as snafu::OptionExt<T>>::context(indexmap::IndexSet::pop(self.freed_channel_ids), errors::ExhaustedChannelIdsSnafu)?'
+        POP = 'std::option::Option::ok_or(indexmap::IndexSet::pop(self.freed_channel_ids), errors::Error::ExhaustedChannelIds)?'
         fo = [x for x in fb if x.conds[-1] == ('std::collections::HashMap::entry(self.slots, %s)' % POP, 'std::collections::hash_map::Entry::Occupied(_)')]
         fv = [x for x in fb if x.conds[-1] == ('std::collections::HashMap::entry(self.slots, %s)' % POP, 'std::collections::hash_map::Entry::Vacant(_)')]
         r.check('fallback:pops-freed-or-exhausted', len(fo) == 1 and len(fv) == 1, site, built=[x.conds[-1] for x in fb],
